@@ -57,7 +57,7 @@ ErrShapes(nm) == LET N(f) == With(f @@ [name |-> nm, lname |-> Low(nm)]) IN {
 Shapes == UNION {NamedShapes(nm) : nm \in Pool} \cup UnnamedShapes
           \cup (IF Mode = "all" THEN UNION {ErrShapes(nm) : nm \in Pool} ELSE {})
 
-Cfg0 == [lists |-> {"L", "M"}, formname |-> "data", omitid |-> FALSE, iname |-> FALSE, entity |-> FALSE]
+Cfg0 == [lists |-> {"L", "M"}, formname |-> "data", omitid |-> FALSE, iname |-> FALSE, entity |-> FALSE, entlabel |-> FALSE]
 
 GInit == RPInit(Cfg0) /\ hist = <<>>
 GNext == \/ (Len(hist) < MaxRows /\ \E r \in Shapes : RowStep(r) /\ hist' = Append(hist, r))
